@@ -28,7 +28,7 @@ theorem one_leader_per_term_ever {N : Nat} {s1 s2 : State} {as : List Action} (h
 `onStateChanged → LEADER` observes). -/
 theorem winner_of_term_is_stable {N : Nat} {s1 s2 : State} {as : List Action} (h1 : Reachable N s1)
     (hr : run N s1 as = some s2) {t l : Nat} (hl : s1.g.leaderOf t = some l) : s2.g.leaderOf t = some l :=
-  (run_mono (inv_reachable h1) hr).ldr t l hl
+  (run_ghost_mono (inv_reachable h1) hr).ldr t l hl
 
 /-- Majorities of any size intersect — odd and even cluster sizes alike (`count > N/2` is `N < 2·count`). -/
 theorem majorities_intersect {N : Nat} {A B : List Nat} (hA : IsQuorum N A) (hB : IsQuorum N B) :
